@@ -3,7 +3,7 @@
    The model is Html/Model.v (all of /repo/html/lex.go and ToHash over the generated table); [run c n l] is a
    caller that calls Next n times whatever it returns; [cfg_ok c] says the two template delimiters contain no
    NUL byte (c = no_tmpl: NewLexer; the six predefined pairs satisfy it, cfg_ok_predefined). *)
-From Verif Require Import Common.Base Common.Lx Gen.Tables Html.Model Html.ListLemmas Html.Safety Html.Step Html.Spec Html.RawText Html.Proofs Html.Template Html.Wf Html.WfDoc Html.EndTag.
+From Verif Require Import Common.Base Common.Lx Gen.Tables Html.Model Html.ListLemmas Html.Safety Html.Step Html.Spec Html.RawText Html.Proofs Html.Template Html.Wf Html.WfDoc Html.EndTag Html.TemplateMore.
 
 (* C01 — no panic, no endless loop: n calls of Next succeed on every byte string, with or without template
    delimiters, whatever the caller does after an error. *)
@@ -81,8 +81,9 @@ Print Assumptions html_template_elsewhere_refuted.
    that element (end_tag_at: "</" + a maximal run of letters that hashes to the element, case-insensitively,
    FOLLOWED BY whitespace, '/', '>' or the end of input), as found by the modelled rules (script double escape,
    template regions skipped; after fixes 756382e and 26dd3a3 the same test applies inside the "<!--" section of a
-   script); without template delimiters and outside script it is the FIRST such end tag.
-   (If the content is empty, e = cursor.) *)
+   script); without template delimiters no end tag stands at an earlier position p, provided that (in a script) no
+   "<!--" occurs up to p (plain_raw: outside script, or no comment_open in [cursor, p]) — so outside script, and in
+   a script up to its first "<!--", e is the FIRST such end tag.  (If the content is empty, e = cursor.) *)
 Theorem html_rawtext_never_markup :
   forall c d l ty tk l', cfg_ok c -> html_inv d l -> intag l = false -> rawtag l <> 0 ->
     next c l = Ok (ty, tk, l') ->
@@ -91,8 +92,9 @@ Theorem html_rawtext_never_markup :
          ty = TextT /\ tk = Some (mkSl (lpos (lz l)) (e - lpos (lz l))) /\ ltext l' = tk /\
          rawtag l' = 0 /\ intag l' = false /\ lpos (lz l') = e) /\
       (e = len d \/ (rawtag l <> html_hash_Plaintext /\ end_tag_at (rawtag l) (d ++ [0]) e)) /\
-      (has_delims c = false -> rawtag l <> html_hash_Script -> rawtag l <> html_hash_Plaintext ->
-         forall p, lpos (lz l) <= p < e -> ~ end_tag_at (rawtag l) (d ++ [0]) p).
+      (has_delims c = false -> rawtag l <> html_hash_Plaintext ->
+         forall p, lpos (lz l) <= p < e -> plain_raw (rawtag l) (d ++ [0]) (lpos (lz l)) (p + 1) ->
+                   ~ end_tag_at (rawtag l) (d ++ [0]) p).
 Proof. exact html_rawtext_proof. Qed.
 Print Assumptions html_rawtext_never_markup.
 
@@ -124,7 +126,8 @@ Print Assumptions html_template_text_clean.
 
 (* C09 — templates, tag name / attribute (partial): a region that follows a tag name or an attribute (directly or
    after whitespace) starts an Attribute token that contains the whole region and has HasTemplate() = true.
-   NOT proved (correspondence + oracle only): regions further inside a name or a value; the converse. *)
+   NOT proved (correspondence + oracle only): regions further inside a name or a value (the converse is
+   html_template_attr_converse below). *)
 Theorem html_template_atomic_attr_partial :
   forall c d l p q, cfg_ok c -> tb_plain c -> html_inv d l -> intag l = true ->
     lstart (lz l) = lpos (lz l) -> lpos (lz l) <= p ->
@@ -133,30 +136,55 @@ Theorem html_template_atomic_attr_partial :
 Proof. exact html_template_attr_proof. Qed.
 Print Assumptions html_template_atomic_attr_partial.
 
-(* C09 — templates, raw text (partial): with a delimiter that does not start with '<', a region at the start of
-   the content of a raw-text element lies inside the Text token, HasTemplate() = true.
-   NOT proved (correspondence + oracle only): regions later in the content; the converse.  For delimiters that
-   start with '<' the clause is false (known finding c09-template:rawtext-lt). *)
+(* C09 — templates, attributes (converse, full): an Attribute token reports HasTemplate() = true only if a delimited
+   region [p,q) lies inside it (between the cursor before the call and the cursor after it). *)
+Theorem html_template_attr_converse :
+  forall c d l v l', cfg_ok c -> tb c <> [] -> html_inv d l -> intag l = true ->
+    next c l = Ok (AttributeT, Some v, l') -> lhas l' = true ->
+    exists p q, lpos (lz l) <= p /\ q <= lpos (lz l') /\ is_region c d p q.
+Proof. exact html_template_attr_converse_proof. Qed.
+Print Assumptions html_template_attr_converse.
+
+(* C09 — templates, raw text (partial): with a delimiter that does not start with '<', a region [p,q) in the content
+   of a raw-text element lies inside the Text token, HasTemplate() = true, whenever p is reached from the start of
+   the content over whole regions and over bytes the scanner steps over one at a time (raw_reach / raw_plain: a byte
+   other than '<' at which no opening delimiter starts, or a '<' not followed by '/' and, in a script, not by '!').
+   NOT proved (correspondence + oracle only): regions after a "</" that is not the element's end tag and regions
+   inside or after a "<!" section of a script.  For delimiters that start with '<' the clause is false (known
+   finding c09-template:rawtext-lt). *)
 Theorem html_template_atomic_rawtext_partial :
   forall c d l p q, cfg_ok c -> html_inv d l -> intag l = false ->
     rawtag l <> 0 -> rawtag l <> html_hash_Plaintext -> (exists x t, tb c = x :: t /\ x <> 60) ->
-    p = lpos (lz l) -> is_region c d p q ->
-    exists v l', next c l = Ok (TextT, Some v, l') /\ lhas l' = true /\ so v = p /\ q <= so v + sn v.
-Proof. exact html_template_rawtext_proof. Qed.
+    raw_reach c (rawtag l) d (lpos (lz l)) p -> is_region c d p q ->
+    exists v l', next c l = Ok (TextT, Some v, l') /\ lhas l' = true /\ so v = lpos (lz l) /\ q <= so v + sn v.
+Proof. exact html_template_rawtext_reach_proof. Qed.
 Print Assumptions html_template_atomic_rawtext_partial.
+
+(* C09 — templates, raw text (converse, full): when the content of a raw-text element is not empty (the cursor is
+   neither at the end of input nor at an end tag of the element) and the call reports HasTemplate() = true, a
+   delimited region [p,q) lies inside the returned Text token (which ends at the new cursor). *)
+Theorem html_template_rawtext_converse :
+  forall c d l ty tk l', cfg_ok c -> tb c <> [] -> html_inv d l -> intag l = false -> rawtag l <> 0 ->
+    lpos (lz l) < len d -> ~ end_tag_at (rawtag l) (d ++ [0]) (lpos (lz l)) ->
+    next c l = Ok (ty, tk, l') -> lhas l' = true ->
+    exists p q, lpos (lz l) <= p /\ q <= lpos (lz l') /\ is_region c d p q.
+Proof. exact html_template_rawtext_converse_proof. Qed.
+Print Assumptions html_template_rawtext_converse.
 
 (* C09 — well-formed documents (partial): for every document assembled from the constructs of the grammar
    WfDoc.item (text without '<'; comments; CDATA; doctype in any ASCII case; start tags of ordinary elements with
    valueless / unquoted / single- / double-quoted attributes and any permitted whitespace, closed by '>' or '/>';
-   end tags with any HTML whitespace before '>'; the raw-text elements style, title, textarea, xmp, iframe in any ASCII case with attributes, non-empty
-   content that contains no "</" (script: no '<'), and their end tag; svg / math / xml subtrees whose inside contains no double
+   end tags with any HTML whitespace before '>'; the raw-text elements style, title, textarea, xmp, iframe, script in any ASCII case with
+   attributes, non-empty content that contains no "</" (script: also no "<!--"), and their end tag; plaintext with
+   everything after its tag (last item); bogus comments "<?…>", "<!…>" (not starting with "--", "[CDATA[", 'd', 'D')
+   and "</" + non-letter "…>"; svg / math / xml subtrees whose inside contains no double
    quote, no NUL and no "</") the lexer, without template delimiters, returns exactly one token per construct
    (one per tag part; raw content as ONE Text token; an svg/math subtree as ONE SVG/Math token), with the right
    type, the bytes of the construct, lower-cased Text()/AttrKey() and verbatim AttrVal(), followed by the
    end-of-input report.  [observe] reads type, token bytes, Text() and (for attributes) AttrVal() after each call.
-   NOT covered by this theorem (correspondence + Go oracle only): script content containing '<', plaintext, raw
+   NOT covered by this theorem (correspondence + Go oracle only): script content containing "<!--" (double escape), raw
    content that is empty or contains "</" (html_rawtext_never_markup says where such content ends), svg/math with double quotes or nested
-   end tags inside, bogus comments, text containing a '<' that opens nothing, names containing '/', templates. *)
+   end tags inside, "<!d…>" bogus comments, unterminated constructs, text containing a '<' that opens nothing, names containing '/', templates. *)
 Theorem html_wellformed_tokens_partial :
   forall items, wf_doc items ->
     exists tr, run no_tmpl (length (doc_obs items) + 1) (new_lexer (doc_bytes items)) = Ok tr /\
